@@ -1,7 +1,7 @@
 """C03 - Backend circuit conversion preserves circuit semantics."""
 import os
 
-from translate import adapters
+from translate import adapters, braket_adapter, cirq_adapter, qiskit_adapter
 from vlib import fingerprint
 
 
@@ -12,13 +12,33 @@ def run(ctx):
         "against the real convert_gate by corr_C03.py",
         "CONTRACT (not an axiom; data checked on every run against the installed Qulacs): every qulacs.gate "
         "constructor equals the documented library matrix of its counterpart, RX/RY/RZ with the opposite angle sign",
-        "partial: only the Python path of the Qulacs adapter has theorems; the Rust convert_circuit, parametric and "
-        "compiled circuits, UnitaryMatrix/Pauli/PauliRotation, and the Qiskit, Cirq, Braket, tket, Stim and OpenQASM "
-        "adapters in both directions are decided by the backend-simulator sweep (sweep_C03.py)",
+        "translate/cirq_adapter.py: fail-closed symbolic evaluation of the Cirq convert_gate per gate kind and entry-wise "
+        "translation of the numpy matrices returned by the converter's own U1/U2/U3 gate classes; validated by "
+        "corr_C03_cirq.py; CONTRACT: each Cirq expression of the tables (I, X**0.5, rx, CNOT ...) has the documented matrix "
+        "of its library counterpart, Cirq's qubit order inside a gate is big-endian (checked against cirq.unitary each run)",
+        "translate/braket_adapter.py: the same for the Braket convert_gate (gate-class tables, the U-gate lambdas, the "
+        "literal SqrtY/SqrtYdag matrices); validated by corr_C03_braket.py; CONTRACT: Gate.V = SqrtX, Gate.Si = Sdag, "
+        "Gate.U = U3, PhaseShift = U1, CNot/CZ/CCNot controls first, big-endian inside a gate (checked against to_matrix())",
+        "translate/qiskit_adapter.py: the same for the Qiskit convert_gate / convert_circuit (qargs = controls then targets); "
+        "validated by corr_C03_qiskit.py; CONTRACT: SXGate = SqrtX, PhaseGate = U1, UGate = U3, CXGate/CZGate/CCXGate controls "
+        "first, to_matrix() little-endian in the gate's own qubit list",
+        "partial: only the Python paths of the Qulacs, Cirq, Braket and Qiskit forward adapters have theorems; the Rust "
+        "convert_circuit, parametric and compiled circuits, UnitaryMatrix/Pauli/PauliRotation (the set transpilers in front of "
+        "the converters are covered by C01), the reverse conversions and the tket, Stim and OpenQASM adapters in "
+        "both directions are decided by the backend-simulator sweep (sweep_C03.py)",
     ]
     ctx.translate("qulacs_adapter", adapters.emit, os.path.join(ctx.work, "gen"), os.path.join(ctx.work, "qulacsconv.json"))
     fingerprint.check(ctx, "packages/qulacs/quri_parts/qulacs/circuit/__init__.py", ["convert_parametric_circuit"])
-    ctx.coq(["qulacsconv.v"], ["C03.v"])
+    ctx.translate("cirq_adapter", cirq_adapter.emit, os.path.join(ctx.work, "gen"), os.path.join(ctx.work, "cirqconv.json"))
+    ctx.translate("braket_adapter", braket_adapter.emit, os.path.join(ctx.work, "gen"), os.path.join(ctx.work, "braketconv.json"))
+    ctx.translate("qiskit_adapter", qiskit_adapter.emit, os.path.join(ctx.work, "gen"), os.path.join(ctx.work, "qiskitconv.json"))
+    ctx.coq(["qulacsconv.v", "cirqconv.v", "braketconv.v", "qiskitconv.v"], ["C03.v"])
     if os.path.exists(os.path.join(ctx.work, "qulacsconv.json")):
         ctx.harness("corr_C03.py", kind="corr")
+    if os.path.exists(os.path.join(ctx.work, "cirqconv.json")):
+        ctx.harness("corr_C03_cirq.py", kind="corr")
+    if os.path.exists(os.path.join(ctx.work, "braketconv.json")):
+        ctx.harness("corr_C03_braket.py", kind="corr")
+    if os.path.exists(os.path.join(ctx.work, "qiskitconv.json")):
+        ctx.harness("corr_C03_qiskit.py", kind="corr")
     ctx.harness("sweep_C03.py", timeout=1500)
